@@ -91,15 +91,15 @@ pub(crate) fn read_data_block<T: Read + Seek>(
 
 /// A fixed version of read_data_block accounting for differing compressed block sizes in ZiPatch files.
 pub(crate) fn read_data_block_patch<T: Read + Seek>(mut buf: T) -> Option<Vec<u8>> {
-    let block_header = BlockHeader::read(&mut buf).unwrap();
+    let block_header = BlockHeader::read(&mut buf).ok()?;
 
     match block_header.compression {
         CompressionMode::Compressed {
             compressed_length,
             decompressed_length,
         } => {
-            let compressed_length: usize =
-                ((compressed_length as usize + 143) & 0xFFFFFF80) - (block_header.size as usize);
+            let compressed_length: usize = ((compressed_length as usize + 143) & 0xFFFFFF80)
+                .checked_sub(block_header.size as usize)?;
 
             let mut compressed_data: Vec<u8> = vec![0; compressed_length];
             buf.read_exact(&mut compressed_data).ok()?;
@@ -118,7 +118,9 @@ pub(crate) fn read_data_block_patch<T: Read + Seek>(mut buf: T) -> Option<Vec<u8
             buf.read_exact(&mut local_data).ok()?;
 
             buf.seek(SeekFrom::Current(
-                (new_file_size - block_header.size as usize - file_size as usize) as i64,
+                new_file_size
+                    .checked_sub(block_header.size as usize)?
+                    .checked_sub(file_size as usize)? as i64,
             ))
             .ok()?;
 
